@@ -22,6 +22,14 @@ def run(tier):
     r = vp.tlc("MC_Lineage", "MC_Lineage_run", workers=8, timeout=6000, name="c04", xmx="24g")
     C.add_tlc(r, "MC_Lineage MaxChain=%d" % maxchain)
     vecs = r.tags["VEC"]
+    # longer chains with block a only (absent / defined / defined with super() per level): gaps between definers
+    slim = 5 if tier == "quick" else 5
+    with open(vp.SPEC + "/MC_Lineage_run.cfg", "w") as f:
+        f.write(open(vp.SPEC + "/MC_Lineage.cfg").read().replace("MaxChain = 3", "MaxChain = %d" % slim).replace("Slim = FALSE", "Slim = TRUE"))
+    r5 = vp.tlc("MC_Lineage", "MC_Lineage_run", workers=8, timeout=6000, name="c04-slim", xmx="24g")
+    C.add_tlc(r5, "MC_Lineage MaxChain=%d, block a only" % slim)
+    seen = set(json.dumps(v["g"], sort_keys=True) for v in vecs)
+    vecs = vecs + [v for v in r5.tags["VEC"] if json.dumps(v["g"], sort_keys=True) not in seen]
     C.cov["exhaustive"] = True
     C.cov["rule"] = ("every chain of length <= %d x per level (a, b in none/def/super; b top/nested/nested under a capture); registered in every batch "
                      "order (sampled beyond 6) and one by one; non-trivial = distinct configuration with at least one block defined" % maxchain)
@@ -41,6 +49,20 @@ def run(tier):
                 order.append(cur)
                 cur = next((n for n in names if v["g"][n]["ext"] == cur), None)
             variants.append([{"op": "add", "tpls": [[n, byname[n]]]} for n in order])          # one by one, parents first
+            # histories that end in the same set (C04: whatever the order of registration): (1) an ancestor is first registered
+            # with other text of the SAME length and then replaced; (2) the second level first extends another root Z
+            # and is then re-registered with its real parent -- the derived data of every descendant must follow
+            root = order[0]
+            def alt(n):
+                return byname[n].replace("a%s(" % n, "aQ(").replace("b%s(" % n, "bQ(").replace("L%s;" % n, "LQ;")
+            for anc in order[:-1][:2]:
+                if alt(anc) != byname[anc]:
+                    variants.append([{"op": "add", "tpls": [[n, alt(n) if n == anc else byname[n]] for n in names]}, {"op": "add", "tpls": [[anc, byname[anc]]]}])
+            if len(order) >= 3:
+                second = order[1]
+                zsrc = G.src("Z", v["g"][root])
+                first = [["Z", zsrc]] + [[n, byname[n].replace("{%% extends '%s' %%}" % root, "{% extends 'Z' %}") if n == second else byname[n]] for n in names]
+                variants.append([{"op": "add", "tpls": first}, {"op": "add", "tpls": [[second, byname[second]]]}])
         for steps0 in variants:
             steps = list(steps0) + [{"op": "state"}]
             if v["ok"]:
@@ -49,8 +71,8 @@ def run(tier):
             jobs.append({"cfg": {}, "steps": steps})
             meta.append((vi, len(steps0)))
     res = vp.run_jobs(jobs, tag="c04", timeout=6000)
-    # I->S on a fixed eighth of the jobs (deterministic): block / super frames of the real executions against TeraVM
-    vp.traced([j for i, j in enumerate(jobs) if i % (8 if tier == "quick" else 16) == 0], C, "c04-trace", timeout=3000)
+    # I->S on a fixed fraction (1 in 14 / 16) of the jobs (deterministic): block / super frames of the real executions against TeraVM
+    vp.traced([j for i, j in enumerate(jobs) if i % (14 if tier == "quick" else 16) == 0], C, "c04-trace", timeout=3000)
     for (vi, nadd), rr, job in zip(meta, res, jobs):
         v = vecs[vi]
         C.count()
